@@ -49,7 +49,7 @@ func genProg(r *vh.Rng, nwf int, mem bool) []Stmt {
 			if !mem {
 				continue
 			}
-			op := []string{"fload", "sload", "fload", "fstore"}[r.Intn(4)]
+			op := []string{"fload", "sload", "floadu", "fstore", "fload"}[r.Intn(5)]
 			if op == "fstore" && pendingStore {
 				sync()
 			}
@@ -58,7 +58,7 @@ func genProg(r *vh.Rng, nwf int, mem bool) []Stmt {
 				s = guard(r, nwf, s)
 			}
 			p = append(p, s)
-			if op == "fload" {
+			if op == "fload" || op == "floadu" {
 				pendingLoad = true
 			}
 			if op == "fstore" {
@@ -112,7 +112,7 @@ func genProg(r *vh.Rng, nwf int, mem bool) []Stmt {
 
 // fixed shapes that aim at particular corners
 func corner(r *vh.Rng, k int) Case {
-	switch k % 6 {
+	switch k % 8 {
 	case 0: // many small groups on one CU: more waiting wavefronts than the barrier buffer holds
 		return Case{Name: "full-barrier-buffer", NWf: 2, NWg: 20, Prog: []Stmt{
 			{Op: "sload", G: "eq", K: 1}, {Op: "sload", G: "eq", K: 1}, {Op: "waitcnt", A: 15, B: 0, G: "eq", K: 1},
@@ -140,6 +140,33 @@ func corner(r *vh.Rng, k int) Case {
 		return Case{Name: "load-wait-use", NWf: 1 + r.Intn(4), NWg: 1 + r.Intn(3), Prog: []Stmt{
 			{Op: "fload"}, {Op: "sload"}, {Op: "fload"}, {Op: "sload"}, {Op: "waitcnt", A: 1, B: 15},
 			{Op: "waitcnt", A: 15, B: 2}, {Op: "waitcnt", A: 0, B: 0}, {Op: "use"}, {Op: "fstore"}, {Op: "endpgm"}}}
+	case 5: // a slow wavefront ends as the LAST event of barrier 1 (the others wait), then more barriers with a late arrival
+		n := 2 + r.Intn(5)
+		x := r.Intn(n) // the one that leaves
+		late := (x + 1 + r.Intn(n-1)) % n
+		var p []Stmt
+		for i := 0; i < 3+r.Intn(3); i++ {
+			p = append(p, Stmt{Op: "sload", G: "eq", K: x}, Stmt{Op: "waitcnt", A: 15, B: 0, G: "eq", K: x})
+		}
+		p = append(p, Stmt{Op: "endpgm", G: "eq", K: x}, Stmt{Op: "barrier"})
+		for b := 0; b < 1+r.Intn(3); b++ {
+			for i := 0; i < 2+r.Intn(3); i++ {
+				p = append(p, Stmt{Op: "sload", G: "eq", K: late}, Stmt{Op: "waitcnt", A: 15, B: 0, G: "eq", K: late})
+			}
+			p = append(p, Stmt{Op: "nop", G: "eq", K: late}, Stmt{Op: "barrier"})
+		}
+		p = append(p, Stmt{Op: "salu"}, Stmt{Op: "endpgm"})
+		return Case{Name: "slow-exit-last-then-barriers", NWf: n, NWg: 1 + r.Intn(3), Prog: p}
+	case 6: // unevenly straddling loads on a compute unit with a coalescing penalty, wait, dependent store
+		var p []Stmt
+		for i := 0; i < 1+r.Intn(3); i++ {
+			p = append(p, Stmt{Op: "floadu"}, Stmt{Op: "waitcnt", A: 0, B: 15}, Stmt{Op: "use"})
+			if r.Intn(2) == 0 {
+				p = append(p, Stmt{Op: "fload"}, Stmt{Op: "floadu"}, Stmt{Op: "waitcnt", A: 0, B: 15}, Stmt{Op: "use"})
+			}
+		}
+		p = append(p, Stmt{Op: "fstore"}, Stmt{Op: "endpgm"})
+		return Case{Name: "straddling-load-wait-use", NWf: 1 + r.Intn(4), NWg: 1 + r.Intn(3), Pen: 3, Prog: p}
 	default: // exit with memory still in flight
 		return Case{Name: "exit-with-mem-in-flight", NWf: 1 + r.Intn(3), NWg: 1 + r.Intn(2), Prog: []Stmt{
 			{Op: "fload"}, {Op: "sload"}, {Op: "vmov"}, {Op: "fstore"}, {Op: "sload"}, {Op: "endpgm"}}}
@@ -182,7 +209,11 @@ func generate(seed uint64, n int) []Case {
 			nwg = 10 + cr.Intn(12)
 		}
 		mem := cr.Intn(3) != 0
-		cs = append(cs, Case{Name: fmt.Sprintf("rnd%d", i), NWf: nwf, NWg: nwg, Prog: genProg(cr, nwf, mem)})
+		pen := 0
+		if mem && cr.Intn(3) == 0 {
+			pen = 3
+		}
+		cs = append(cs, Case{Name: fmt.Sprintf("rnd%d", i), NWf: nwf, NWg: nwg, Pen: pen, Prog: genProg(cr, nwf, mem)})
 	}
 	return cs
 }
@@ -217,7 +248,7 @@ func coqTiming(c Case) string {
 	var last *Ev
 	first := true
 	for _, e := range c.Timing.Evs {
-		if e.E == "t" || e.E == "sdone" {
+		if e.E == "t" || e.E == "sdone" || e.E == "mfin" {
 			continue
 		}
 		if !first {
